@@ -10,6 +10,8 @@ from . import gen_data
 from . import engine_data
 from . import oracle_c18
 from . import oracle_c01
+from . import oracle_c11
+from . import seams
 from . import prng
 from . import world as W
 
@@ -17,8 +19,14 @@ from . import world as W
 def _ilv_hash(spec):
     """Interleaving signature: sequence of (client, request class / op kind)."""
     seq = []
+    for op in spec.get("pre_ops", []) + spec.get("mid_ops", []):
+        seq.append(("pre", op["op"], op.get("zone")))
     for op in spec["ops"]:
-        if op["op"] == "req":
+        if op["op"] in ("sweep", "labels"):
+            seq.append((op["op"], op["axis"], op.get("input"), bool(op.get("jump"))))
+        elif op["op"] == "tz":
+            seq.append(("tz", op["zone"]))
+        elif op["op"] == "req":
             seq.append((op.get("client"), "+".join(f[0] for f in op["fields"]), op["axis"], op["input"], op.get("ds", 0)))
         else:
             seq.append((op["op"],))
@@ -125,7 +133,129 @@ def c01_execute(spec, workdir):
     return res
 
 
+# ---------------------------------------------------------------------------------- C11 (engine A + environment schedule)
+PROFILE_C11 = {
+    "n_inputs": (1, 2), "p_clim": 0.0, "time_profile": "calendar", "leadtime_profile": "calendar",
+    "n_times": (2, 6), "n_leadtimes": (1, 4), "n_locations": (1, 3), "p_has_obs": 1.0, "p_has_fcst": 1.0,
+    "miss_rates": [0.0, 0.05, 0.15], "p_keep_dim": 0.95, "p_pit": 0.0, "p_ens": 0.0, "p_thr": 0.0, "p_q": 0.0,
+    "p_other": 0.0, "p_remap": 0.0, "p_dim_agg": 0.0, "p_obs_range": 0.0, "p_subset": 0.04,
+    "p_whole_field_missing": 0.0, "p_slice_missing": 0.05,
+}
+C11_AXES = ["Time", "Year", "Month", "Week", "Day", "Timeofday", "Dayofyear", "Dayofmonth", "Monthofyear",
+            "Leadtime", "Leadtimeday", "Location", "Lat", "Lon", "Elev", "No", "Threshold", "Obs", "Fcst"]
+CONV_DAYS = 73414
+
+
+def _env_op(rng):
+    r = rng.random()
+    if r < 0.7:
+        return {"op": "tz", "zone": rng.choice(seams.ZONES)}
+    return {"op": "clock", "delta": rng.choice([1, -1, 3600, -3600, 86400, 86400 * 366, -86400 * 365 * 30,
+                                                86400 * 365 * 80, 1800, -7200])}
+
+
+def _instants(rng, n):
+    out = []
+    for _ in range(n):
+        b = rng.choice(W._BOUNDARIES)
+        t = b + rng.choice([-1, 0, 1, -3600, 3599, 3600, 86399, -86400, 43200, rng.randrange(-400 * 86400, 400 * 86400)])
+        if 0 <= t <= 4133980799:
+            out.append(int(t))
+    return out or [0]
+
+
+def c11_gen(seed, run, tier):
+    parts = (seed, "C11", run)
+    mrng = prng.stream(*parts, "mode")
+    erng = prng.stream(*parts, "env")
+    orng = prng.stream(*parts, "ops")
+    every = 400 if tier == "quick" else 50
+    world = W.generate(prng.stream(*parts, "world"), PROFILE_C11)
+    config = gen_data.gen_config(prng.stream(*parts, "config"), world, PROFILE_C11)
+    for k in ("leadtimes", "locations", "locations_x", "lat_range", "elev_range"):
+        config.pop(k, None)
+    spec = {"prop": "C11", "seed": seed, "run": run, "tier": tier, "world": world, "config": config, "pinned": True,
+            "pin_seed": 4242, "ref_utc": True, "pre_ops": [], "mid_ops": [], "ops": []}
+    if run % every == 0:
+        # conversions for a block of calendar days (thorough: every day 1900-2100) under one zone
+        zone = seams.ZONES[(run // every) % len(seams.ZONES)]
+        spec["pre_ops"] = [{"op": "tz", "zone": zone}]
+        if tier == "thorough":
+            spec["ops"] = [{"op": "conv", "start": 0, "n": CONV_DAYS}]
+        else:
+            n = CONV_DAYS // 20
+            spec["ops"] = [{"op": "conv", "start": mrng.randrange(0, CONV_DAYS - n), "n": n}]
+        spec["kind"] = "conv"
+        return spec
+    n_inputs = len(world["inputs"])
+    n_ops = mrng.randint(2, 6) if tier == "quick" else mrng.randint(2, 12)
+    ops = []
+    for _ in range(n_ops):
+        r = orng.random()
+        if r < 0.5:
+            op = {"op": "sweep", "axis": orng.choice(C11_AXES[:15] if orng.random() < 0.9 else C11_AXES),
+                  "fields": orng.choice([[["Obs"], ["Fcst"]], [["Obs"], ["Fcst"]], [["Obs"]], [["Fcst"], ["Obs"]]]),
+                  "input": orng.randrange(n_inputs)}
+            if erng.random() < 0.35:
+                op["jump"] = {"after": erng.randrange(0, 6), "env": _env_op(erng)}
+            ops.append(op)
+        elif r < 0.68:
+            axis = orng.choice(C11_AXES[:11])
+            ops.append({"op": "req", "fields": orng.choice([[["Obs"], ["Fcst"]], [["Obs"]], [["Fcst"]]]),
+                        "single": False, "input": orng.randrange(n_inputs), "axis": axis,
+                        "index": {"wrap": orng.randrange(0, 8)}})
+        elif r < 0.80:
+            ops.append({"op": "labels", "axis": orng.choice(["Time", "Year", "Month", "Week", "Day", "Location", "Lat", "Elev"])})
+        elif r < 0.93:
+            ops.append({"op": "buckets", "instants": _instants(orng, 40),
+                        "leadtimes": orng.sample([0.0, 6.0, 23.0, 23.75, 23.99, 24.0, 24.5, 47.5, 48.0, 71.99, 72.0, 240.0, 1e-3], 6)})
+        else:
+            n = 200 if tier == "quick" else 1500
+            ops.append({"op": "conv", "start": orng.randrange(0, CONV_DAYS - n), "n": n})
+    # the environment schedule: before loading, between loading and construction, between operations
+    for _ in range(erng.randint(1, 4)):
+        op = _env_op(erng)
+        r = erng.random()
+        if r < 0.2:
+            spec["pre_ops"].append(op)
+        elif r < 0.4:
+            spec["mid_ops"].append(op)
+        else:
+            ops.insert(erng.randrange(len(ops) + 1), op)
+    spec["ops"] = ops
+    return spec
+
+
+def c11_execute(spec, workdir):
+    sim = engine_data.DataSim(spec, workdir, oracles=[oracle_c11.C11Oracle()], want_ref=True)
+    res = sim.run()
+    shutil.rmtree(workdir, ignore_errors=True)
+    res["mode"] = spec.get("kind", "session")
+    if res["violation"] is not None:
+        res["violation"]["signature"] = oracle_c11.signature(spec, res["violation"])
+    res["ilv"] = _ilv_hash(spec)
+    st = res["stats"]
+    res["nontrivial"] = bool(st.get("probe:multi_slice_sweeps") or st.get("probe:conv_days") or st.get("probe:bucket_instants"))
+    ts = spec["world"]["universe"]["times"]
+    res["sim_time"] = float(sum(abs(op.get("delta", 0)) for op in spec["ops"] + spec.get("pre_ops", []) + spec.get("mid_ops", []) if op.get("op") == "clock"))
+    res["stats"]["calendar_span_days"] = (max(ts) - min(ts)) // 86400 if ts else 0
+    return res
+
+
 PROPS = {
+    "C11": {"gen": c11_gen, "execute": c11_execute, "engine": "A",
+            "runs": {"quick": 3000, "thorough": 60000},
+            "expected_probes": ["probe:sweeps_decoded", "probe:multi_slice_sweeps", "probe:jump_inside_sweep",
+                                "probe:label_checks", "probe:bucket_instants", "probe:conv_days",
+                                "probe:weighted_mean_checks", "tz_jump", "clock_jump"],
+            "rule": "one evaluation = one seeded simulated session on a world whose initialisation times cluster around "
+                    "year/month/week/day boundaries, leap days and 1970-2100 extremes: sweeps over every slice of an axis "
+                    "(partition, model buckets, weighted mean), single requests refined against a fresh dataset under UTC, "
+                    "label, bucket-function and date-conversion checks, with time-zone and clock jumps scheduled before "
+                    "loading, between loading and construction, between operations and inside sweeps; every 400th quick "
+                    "run (50th thorough run) checks the conversions for 5% (100%) of the days 1900-2100 under one zone; "
+                    "non-trivial = the run decoded a multi-slice sweep, or checked bucket functions/conversions; "
+                    "distinct = distinct run digests among non-trivial runs"},
     "C01": {"gen": c01_gen, "execute": c01_execute, "engine": "A",
             "runs": {"quick": 4000, "thorough": 150000},
             "expected_probes": ["probe:sibling_pairs", "probe:decoded_responses", "probe:twin_compared"],
